@@ -603,6 +603,11 @@ _ex(r'\btypeof\s*\(\s*\(?[^()]*(\?[^()]*\)?\s*:|,)', 'K29 typeof of a parenthesi
     '(typeof (c?b:b) -> typeof b: no ReferenceError for an undeclared b)')
 _ex(_k30, 'K30 a function that assigns a global `var` declared LATER in the source and has a var declaration of its own '
     '(the assignment is merged into the function\'s declaration: function f(){x=1;var y=2}var x -> function f(){var x=1,e=2}var x)')
+_ex(r'\bvar\s+[^;\[{]*=[^;]*,\s*[\[{]', 'K31 a var statement whose destructuring declarator follows an initialised declarator (var a=f(),[b]=g() -> var[b]=g(),a=f(): '
+    'initialisers run in another order)')
+_ex(r'[,(]\s*[A-Za-z_$][\w$]*\s*=\s*[^,()=]*\([^()]*\)\s*\)\s*(\{|=>)', 'K32 a trailing parameter with a default value that calls something (dropped when unused, together with the call)')
+_ex(r'''["'](\d+\.\d*0|\d+\.|\.\d+)["']''', 'K33 string property keys / indices that spell a number non-canonically ("1.0", "1.", ".5" are turned into the number: o["1.0"] -> o[1])')
+_ex(r'\bfor\s*\(\s*(var|let|const)?\s[^;]*\{[^}]*\bfor\b[^}]*\}[^;]*\bin\b', 'K34 an `in` expression in a for-initialiser after a function whose body contains a for statement (parentheses dropped: SyntaxError)')
 _ex(r'\bstatic\s+[0-9.]', 'K23 static class fields with numeric names (static 1=2 -> static1=2)')
 
 # ===================================================================================================
@@ -3719,6 +3724,79 @@ def with_programs(ctx):
     return out
 
 
+# ===================================================================================================
+# flow-statement merge matrix: {empty, var-only, let-only, expr} THEN-branch x {return v, return, throw v, break, continue} ELSE-branch
+# (and the mirrored form) x following {return, return v, nothing, expr, throw} in functions and in loops; observed by return value
+def flowmerge_programs(ctx):
+    thens = ['{}', ';', '{;}', '{var v}', '{var v;var u}', '{let l}', 'out(1)', '{out(1)}', '{out(1);out(11)}', '{var v=out(1)}']
+    flows_fn = ['return 5', 'return', 'throw 6', 'return out(7)', 'return void 0', '{return 5}', '{out(8);return 9}']
+    flows_loop = ['break', 'continue', '{break}', '{out(8);continue}', 'return 5', 'throw 6']
+    follows_fn = ['return', 'return 3', '', 'out(4)', 'throw 2', 'return void 0', 'out(4);return', 'var z=1;return z']
+    follows_loop = ['', 'out(4)', 'continue', 'break', 'out(4);continue']
+    progs = []
+    if ctx.quick():
+        # quick: the complete product over the short lists (the cells where merges fire), not a random sample
+        thens = ['{}', '{var v}', 'out(1)']
+        follows_fn = ['return', 'return 3', '', 'out(4)']
+        follows_loop = ['', 'out(4)']
+
+    def sm(b):
+        return b if b.endswith('}') or b == ';' else b + ';'
+
+    for t in thens:
+        for fl in flows_fn:
+            for fo in follows_fn:
+                bodies = ['if(a)%selse %s' % (sm(t), sm(fl)), 'if(a)%selse %s' % (sm(fl), sm(t))]
+                if not ctx.quick():
+                    bodies += ['if(!a)%selse %s' % (sm(t), sm(fl)), 'if(a)%s' % sm(fl), 'if(a){}else if(b)%selse %s' % (sm(t), sm(fl))]
+                for b in bodies:
+                    progs.append('function t(a,b){' + b + fo + '}\nfor(var m=0;m<4;m++){try{out("r",t(m&1,m&2))}catch(e){out("E",e)}}')
+        for fl in flows_loop:
+            for fo in follows_loop:
+                for b in ('if(a)%selse %s' % (sm(t), sm(fl)), 'if(a)%selse %s' % (sm(fl), sm(t))):
+                    loops = ('for(var i=0;i<2;i++){%s}', 'var i=0;while(i++<2){%s}', 'var i=0;do{%s}while(i++<1)', 'for(var i of[0,1]){%s}',
+                             'x:for(var i=0;i<2;i++){%s}')
+                    for loop in (loops[:1] if ctx.quick() else loops):
+                        progs.append('function t(a,b){' + (loop % (b + fo)) + 'return i}\nfor(var m=0;m<4;m++){try{out("r",t(m&1,m&2))}catch(e){out("E",e)}}')
+    seen = set()
+    out = []
+    for q in progs:
+        if q not in seen:
+            seen.add(q)
+            out.append(q)
+    return out
+
+
+# ===================================================================================================
+# quote-switch matrix: string literals over the alphabet {other quote, backtick, escaped ', escaped ", escaped `, a} for both quote
+# kinds, as property names (never a template) and as ordinary strings, compared by VALUE.  Complete up to length 4 (quick) /
+# 5 (thorough) over the full alphabet and up to length 6 (quick) / 7 (thorough) over the reduced alphabet {escaped own quote, other
+# quote, a} on which the in-place rewriting of dropped escapes and inserted backslashes interacts.
+def quote_programs(ctx):
+    import itertools
+    quick = ctx.quick()
+    lits = []
+    for q, other in (("'", '"'), ('"', "'")):
+        full = [other, '`', "\\'", '\\"', '\\`', 'a']
+        red = ['\\' + q, other, 'a']
+        for n in range(1, (4 if quick else 5) + 1):
+            for t in itertools.product(full, repeat=n):
+                lits.append(q + ''.join(t) + q)
+        for n in range(1, (6 if quick else 7) + 1):
+            for t in itertools.product(red, repeat=n):
+                lits.append(q + ''.join(t) + q)
+    lits = sorted(set(lits))
+    if quick:
+        lits = [x for x in lits if len(x) <= 6 or ctx.rnd.random() < 0.5]
+    progs = []
+    per = 50
+    for i in range(0, len(lits), per):
+        chunk = lits[i:i + per]
+        progs.append('\n'.join('out(Object.keys({%s:1})[0])' % x for x in chunk))
+        progs.append('\n'.join('out(%s)' % x for x in chunk))
+    return progs
+
+
 def families(ctx, exe):
     quick = ctx.quick()
     rnd = ctx.rnd
@@ -3733,6 +3811,8 @@ def families(ctx, exe):
     fams.append(dict(name='literals', sources=literal_programs(ctx), nenv=1, probe=1, batched=True))
     fams.append(dict(name='asi', sources=some(asi_programs(ctx), 0.09), nenv=3 if quick else 5, probe=1))
     fams.append(dict(name='nesting', sources=nesting_programs(ctx), nenv=1, probe=0))
+    fams.append(dict(name='flowmerge', sources=flowmerge_programs(ctx), nenv=1, probe=0))
+    fams.append(dict(name='quotes', sources=quote_programs(ctx), nenv=1, probe=0, batched=True))
     fams.append(dict(name='scaling', sources=scaling_programs(ctx), nenv=1, probe=0))
     fams.append(dict(name='with', sources=with_programs(ctx), nenv=1, probe=0))
     fams.append(dict(name='corpus', sources=corpus_programs(ctx), nenv=3 if quick else 4, probe=1))
